@@ -64,9 +64,9 @@ Proof.
   apply andb_true_iff in H. destruct H as [Ht Hr]. apply N.ltb_lt in Ht. apply IH; auto. lia.
 Qed.
 
-Theorem pspec_model c : pwf c = true -> pkf c = 0%N -> pspec c (pmodel c) = true.
+Theorem pspec_model c : pwf c = true -> pspec c (pmodel c) = true.
 Proof.
-  unfold pwf, pkf, pspec, pmodel. destruct (p_vals c) as [|[t v] r] eqn:E; intros Hwf Hk.
+  unfold pwf, pspec, pmodel. destruct (p_vals c) as [|[t v] r] eqn:E; intros Hwf.
   - reflexivity.
   - assert (Hw : forallb (fun t => N.ltb t 4) (map fst ((t, v) :: r)) = true).
     { rewrite forallb_forall in *. intros x Hx. apply in_map_iff in Hx. destruct Hx as [p [<- Hp]]. auto. }
@@ -74,9 +74,9 @@ Proof.
     rewrite (dt_fold_lattice _ _ Hw).
     set (mx := lattice_max (t :: map fst r)) in *.
     assert (Hmx : (mx < 4)%N) by (apply lattice_max_lt4; [lia|exact Hw]).
-    unfold pexact. rewrite E. destruct (p_avg c); simpl in Hk.
+    unfold pexact. rewrite E. destruct (p_avg c).
     + destruct (lt4_cases mx Hmx) as [H|[H|[H|H]]]; rewrite H in *; simpl in *;
-        try discriminate; rewrite close_refl; reflexivity.
+        rewrite close_refl; reflexivity.
     + rewrite N.eqb_refl, close_refl. reflexivity.
 Qed.
 
@@ -89,9 +89,9 @@ Proof.
   apply andb_true_iff in H. destruct H as [H _]. now apply N.eqb_eq in H.
 Qed.
 
-(* the finding: AVG over xsd:float members is typed xsd:double *)
-Lemma avg_float_refuted :
-  exists c, pwf c = true /\ pkf c = 1%N /\ pmodel c = PVal 3 (3, 2)%Z /\ pspec c (pmodel c) = false.
-Proof.
-  exists {| p_avg := true; p_vals := [(2%N, (3, 2)%Z)] |}. vm_compute. repeat split.
-Qed.
+(* remark: the answer of the code before commit bd5db65a (AVG over xsd:float typed xsd:double)
+   is rejected by the checker *)
+Lemma avg_float_double_rejected :
+  pspec {| p_avg := true; p_vals := [(2%N, (3, 2)%Z)] |} (PVal 3 (3, 2)%Z) = false
+  /\ pmodel {| p_avg := true; p_vals := [(2%N, (3, 2)%Z)] |} = PVal 2 (3, 2)%Z.
+Proof. vm_compute. split; reflexivity. Qed.
